@@ -1355,6 +1355,11 @@ class Message(ABC):
                 current[value.key] = value.value
             elif isinstance(current, list) and not isinstance(value, list):
                 current.append(value)
+            elif isinstance(current, list) and isinstance(value, list):
+                # A packed repeated field may arrive in several chunks, possibly
+                # mixed with unpacked elements: all of them are concatenated.
+                current.extend(value)
+                setattr(self, field_name, current)
             else:
                 setattr(self, field_name, value)
 
